@@ -354,6 +354,8 @@ struct FileCfg {
     /// order in which a model's state trees (and, matching them, its PDF blocks) are listed in the file:
     /// 0 ascending state numbers, 1 descending, 2 rotated by one
     order: usize,
+    /// numbering / listing of the internal tree nodes (see ModelSpec::numbering)
+    numbering: u8,
 }
 
 fn build_file(fc: &FileCfg, pool: &[(String, Vec<String>)], all_shapes: &[TreeSpec]) -> VoiceSpec {
@@ -379,6 +381,7 @@ fn build_file(fc: &FileCfg, pool: &[(String, Vec<String>)], all_shapes: &[TreeSp
             prefix: prefix.into(),
             questions: pool.to_vec(),
             quoted: fc.quoted,
+            numbering: fc.numbering,
             trees: {
                 let mut listed: Vec<(usize, usize)> = states.iter().cloned().enumerate().collect();
                 match fc.order {
@@ -511,7 +514,7 @@ fn construct_label(path: &[(String, bool)], questions: &HashMap<String, Vec<Stri
 
 pub fn run(tier: Tier) -> i32 {
     let rep = Report::new("C04", tier, "model_checking");
-    rep.set_rule("SCOPE: (a) bundled voice: every model (duration, 3 streams x 5 states, 2 GV) x every label of the label space (corpus + one-group recombinations of the cover set + every distinct corpus value of every field group in 2-4 base labels + typed sweeps of every numeric field over 0..N + phoneme symbols from the voice's own patterns) vs an independent reader of the file + HTS wildcard matcher, bit-exact on means/variances/voicing weight and equal on tree/PDF index; (b) every distinct question of the bundled voice x the label space: crate matcher vs wildcard oracle; (c) generated files: all binary tree shapes with <= 3 internal nodes x 4 leaf numberings (in order, reversed, permuted, tied: one PDF reached by several branches) x quoted/unquoted x question triples from a pool of real questions (incl. the regex-fallback ones) x layout deviations (states, streams, vector length, window set, order in which the state trees are listed), checked against both the independent reader and the generator's spec (sentinel floats); (d) metadata, options, windows, engine defaults vs the header; distinct = (file, model, state, label); non-trivial = lookups through a tree with more than one leaf");
+    rep.set_rule("SCOPE: (a) bundled voice: every model (duration, 3 streams x 5 states, 2 GV) x every label of the label space (corpus + one-group recombinations of the cover set + every distinct corpus value of every field group in 2-4 base labels + typed sweeps of every numeric field over 0..N + phoneme symbols from the voice's own patterns) vs an independent reader of the file + HTS wildcard matcher, bit-exact on means/variances/voicing weight and equal on tree/PDF index; (b) every distinct question of the bundled voice x the label space: crate matcher vs wildcard oracle; (c) generated files: all binary tree shapes with <= 3 internal nodes x 4 leaf numberings (in order, reversed, permuted, tied: one PDF reached by several branches) x quoted/unquoted x question triples from a pool of real questions (incl. the regex-fallback ones) x layout deviations (states, streams, vector length, window set, order in which the state trees are listed, numbering and listing order of the internal nodes: sequential, non-contiguous ids, ids counted backwards, yes-subtree rows first), checked against both the independent reader and the generator's spec (sentinel floats); (d) metadata, options, windows, engine defaults vs the header; distinct = (file, model, state, label); non-trivial = lookups through a tree with more than one leaf");
     rep.assume("labels limited to the stated label space; generated trees have at most 3 internal nodes; the label text matched by the oracle is the label's own serialisation");
     // ---------- question pool from the bundled voice ----------
     let v0b = v0_bytes();
@@ -677,7 +680,7 @@ pub fn run(tier: Tier) -> i32 {
         .collect();
     let all_shapes: Vec<TreeSpec> = (0..=3).flat_map(shapes).collect();
     let mut files: Vec<FileCfg> = Vec::new();
-    let default = FileCfg { shape: 0, assign: 0, quoted: true, qtriple: [0, 1, 2], nstate: 2, ns: 3, vlen: 2, wset: 2, order: 0 };
+    let default = FileCfg { shape: 0, assign: 0, quoted: true, qtriple: [0, 1, 2], nstate: 2, ns: 3, vlen: 2, wset: 2, order: 0, numbering: 0 };
     let mut triples: Vec<[usize; 3]> = Vec::new();
     for a in 0..pool.len() {
         for b in 0..pool.len() {
@@ -697,7 +700,7 @@ pub fn run(tier: Tier) -> i32 {
         for v in [1, 4] {
             l.push((2, 3, v, 2));
         }
-        for w in [0, 1, 3] {
+        for w in [0, 1, 3, 6] {
             l.push((2, 3, 2, w));
         }
         if tier == Tier::Thorough {
@@ -726,10 +729,16 @@ pub fn run(tier: Tier) -> i32 {
                             continue;
                         }
                         files.push(FileCfg { shape, assign, quoted, qtriple: *t, nstate: l.0, ns: l.1, vlen: l.2, wset: l.3, ..default.clone() });
+                        // the same file with its internal nodes numbered / listed in the other legal ways
+                        if ti == 0 || li == 0 {
+                            for numbering in 1..=3u8 {
+                                files.push(FileCfg { shape, assign, quoted, qtriple: *t, nstate: l.0, ns: l.1, vlen: l.2, wset: l.3, numbering, ..default.clone() });
+                            }
+                        }
                         // the same file with its state trees listed in descending / rotated order (states >= 2 only)
                         if l.0 >= 2 && (ti == 0 || li == 0) && (shape + assign) % 2 == 0 {
                             for order in [1usize, 2] {
-                                files.push(FileCfg { shape, assign, quoted, qtriple: *t, nstate: if order == 2 { 5 } else { l.0 }, ns: l.1, vlen: l.2, wset: l.3, order });
+                                files.push(FileCfg { shape, assign, quoted, qtriple: *t, nstate: if order == 2 { 5 } else { l.0 }, ns: l.1, vlen: l.2, wset: l.3, order, numbering: 0 });
                             }
                         }
                     }
